@@ -416,7 +416,12 @@ fn parse_regs_a64(t: &mut Toks) -> UnwindRegsAarch64 {
     let lr = t.u64();
     let sp = t.u64();
     let fp = t.u64();
-    UnwindRegsAarch64::new_with_ptr_auth_mask(PtrAuthMask(mask), lr, sp, fp)
+    if mask == u64::MAX {
+        // the plain constructor: documented as "no stripping", i.e. the all-ones mask
+        UnwindRegsAarch64::new(lr, sp, fp)
+    } else {
+        UnwindRegsAarch64::new_with_ptr_auth_mask(PtrAuthMask(mask), lr, sp, fp)
+    }
 }
 fn fmt_regs_a64(r: &UnwindRegsAarch64) -> String {
     format!("0x{:x} 0x{:x} 0x{:x} 0x{:x}", r.lr_mask().0, r.lr(), r.sp(), r.fp())
@@ -764,12 +769,16 @@ fn run<A: ArchOps>(lines: Vec<String>, hang_ms: u64) {
             "stats" => match caches.get(t.next()) {
                 Some(c) => {
                     let s = A::stats(c);
+                    // the derived accessors must agree with the four counters
+                    let misses = s.miss_empty_slot_count + s.miss_wrong_modules_count + s.miss_wrong_address_count;
+                    let derived_ok = s.hits() == s.hit_count && s.misses() == misses && s.total() == s.hit_count + misses;
                     format!(
-                        "stats {} {} {} {}",
+                        "stats {} {} {} {}{}",
                         s.hit_count,
                         s.miss_empty_slot_count,
                         s.miss_wrong_modules_count,
-                        s.miss_wrong_address_count
+                        s.miss_wrong_address_count,
+                        if derived_ok { String::new() } else { format!(" derived-mismatch total={} hits={} misses={}", s.total(), s.hits(), s.misses()) }
                     )
                 }
                 None => "bad".into(),
